@@ -293,6 +293,8 @@ def run(chk, ctx):
     round3.record_receivers_readonly(chk, ctx)
     round3.pending_marker_not_data(chk, ctx)    # a join that can never complete leaves the execution RUNNING for ever
     round3.terminated_range(chk, ctx)     # slots that were never launched must not be awaited: the lingering join state ends the execution twice
+    from . import round4
+    round4.task_outcome_once(chk, ctx)       # a Task whose launcher produces no outcome leaves its execution RUNNING for ever; two outcomes end it twice
     chk.assume("engine-internal calls (change_state, handle_error, acknowledge, publish) do not raise; exception edges come from the may-raise table of sa/flow.py")
     chk.assume("loops run 0-or-more times; branch correlation only through the four idioms of DESIGN.md section 2")
     chk.assume("handle_error / handle_terminal_state / the join / the termination gate are verified against their contract and the contract is used at call sites")
